@@ -301,6 +301,9 @@ Definition serialize_call_args : list string := ["d.SelectedVersion"; "d.ForceSe
 (* driver/netconf/capabilities.go Driver.ServerHasCapability *)
 Definition server_has_capability_code : list dstmt :=
   [DRange "serverCapability" "d.serverCapabilities" [DIf (DEq "serverCapability" "s") [DReturn "true"] []]; DReturn "false"].
+(* channel/sendinteractive.go Channel.sendInteractive *)
+Definition send_interactive_code : list dstmt :=
+  [DCall "defer close(cr)"; DRange "e" "events" [DAssign "i" "index of e"; DAssign "prompts" "op.CompletePatterns"; DIf (DNot (DEq "e.ChannelResponse" """""")) [DAssign "prompts" "append(prompts, regexp.MustCompile(e.ChannelResponse))"] [DAssign "prompts" "append(prompts, c.PromptPattern)"]; DAssign "err" "c.Write([]byte(e.ChannelInput), e.HideInput)"; DIf (DNot (DEq "err" "nil")) [DCall "cr <- &result{b: nil, err: err}"; DReturn ""] []; DIf (DAnd (DNot (DEq "e.ChannelResponse" """""")) (DNot (DAtom "e.HideInput"))) [DCall "readUntilF(ctx, []byte(e.ChannelInput))"; DIf (DNot (DEq "err" "nil")) [DCall "cr <- &result{b: nil, err: err}"; DReturn ""] []; DAssign "b" "append(b, nb...)"] []; DAssign "err" "c.WriteReturn()"; DIf (DNot (DEq "err" "nil")) [DCall "cr <- &result{b: nil, err: err}"; DReturn ""] []; DCall "c.ReadUntilAnyPrompt(ctx, prompts)"; DIf (DNot (DEq "err" "nil")) [DCall "cr <- &result{b: nil, err: err}"; DReturn ""] []; DAssign "b" "append(b, pb...)"; DIf (DAnd (DAtom "i < len(events)-1") (DAtom "len(op.CompletePatterns) > 0")) [DAssign "done" "false"; DRange "p" "op.CompletePatterns" [DIf (DAtom "p.Match(pb)") [DAssign "done" "true"; DBreak] []]; DIf (DAtom "done") [DBreak] []] []]; DCall "cr <- &result{b: c.processOut(b, false), err: nil}"].
 (* the option loops of the constructors (C19) *)
 Definition option_loops : list (string * dstmt) := [
   ("driver/generic/driver.go NewDriver",
